@@ -134,6 +134,27 @@ theorem ntop_pton_v4 (a b c d : Nat) (ha : a < 256) (hb : b < 256) (hc : c < 256
     dnsPton .unspec (ntop (.v4 [a, b, c, d])) = some (.v4 [a, b, c, d]) :=
   dnsPton_ntop_v4 a b c d ha hb hc hd
 
+/-- IPv6 instances of `ntop_pton` (kernel-checked): unspecified, loopback, IPv4-mapped, IPv4-compatible,
+    link-local, leading / inner / trailing zero runs, no zero run, a single zero word (not compressed).
+    The general IPv6 statement `∀ a, dnsPton .unspec (ntop (.v6 a)) = some (.v6 a)` is NOT proved; it is
+    checked on the implementation and on the model by the `ntoppton` operations of the `chan` stream. -/
+def v6Examples : List (List Nat) :=
+  [ [0, 0, 0, 0, 0, 0, 0, 0, 0, 0, 0, 0, 0, 0, 0, 0],
+    [0, 0, 0, 0, 0, 0, 0, 0, 0, 0, 0, 0, 0, 0, 0, 1],
+    [0, 0, 0, 0, 0, 0, 0, 0, 0, 0, 255, 255, 1, 2, 3, 4],
+    [0, 0, 0, 0, 0, 0, 0, 0, 0, 0, 0, 0, 1, 2, 3, 4],
+    [254, 128, 0, 0, 0, 0, 0, 0, 0, 0, 0, 0, 0, 0, 0, 1],
+    [32, 1, 13, 184, 0, 0, 0, 0, 0, 0, 0, 0, 0, 0, 0, 1],
+    [0, 1, 0, 2, 0, 3, 0, 4, 0, 5, 0, 6, 0, 7, 0, 8],
+    [0, 1, 0, 0, 0, 0, 0, 0, 0, 0, 0, 0, 0, 0, 0, 0],
+    [0, 1, 0, 0, 0, 0, 0, 2, 0, 0, 0, 0, 0, 0, 0, 3],
+    [0, 1, 0, 0, 0, 2, 0, 3, 0, 4, 0, 5, 0, 6, 0, 7],
+    [255, 255, 255, 255, 255, 255, 255, 255, 255, 255, 255, 255, 255, 255, 255, 255],
+    [0, 0, 0, 0, 0, 0, 0, 0, 0, 0, 0, 0, 0, 0, 0, 2] ]
+
+theorem ntop_pton_v6_examples : v6Examples.all (fun a => dnsPton .unspec (ntop (.v6 a)) == some (.v6 a)) = true := by
+  decide +kernel
+
 /-! ## The pinned tree -/
 
 /-- F17: with the pinned rule `options use-vc` overrides the flags the application supplied -/
